@@ -379,6 +379,13 @@ def r07_4_origins(chk):
             cond = t[5]
             ok = ok and cond is not None and cond[0] == "cmp" and cond[1] == "in" and cond[2] == ("mu", t[1], t[2]) \
                 and is_refs(cond[3])
+        elif is_call(t, "next") and t[2] and t[2][0][0] == "comp" and len(t[2]) == 1:
+            # next(r for r in count(k) if r not in <references in use>): the first candidate that is free
+            comp = t[2][0]
+            gens = comp[3]
+            ok = ok and len(gens) == 1 and is_call(gens[0][1], "count") and len(gens[0][2]) == 1 and \
+                gens[0][2][0][0] == "cmp" and gens[0][2][0][1] == "not in" and gens[0][2][0][2] == comp[2] and \
+                is_refs(gens[0][2][0][3])
         else:
             ok = False
     chk.require(ok, "R07.4", "origin-reference-unique", "an origin reference already used in the logical file can be "
